@@ -975,3 +975,365 @@ Print Assumptions C05_fault_closing2_nested_partial.
 Print Assumptions C05_fault_closing2_delimited_arg_partial.
 Print Assumptions C05_error_propagates2_partial.
 Print Assumptions C05_fault_closing2_doc_ws_partial.
+
+(** * Injected unmatched OPENING delimiters over the EXTENDED grammar (proofs in
+    [Proofs/Fault2Open.v])
+
+    PARTIAL.  [open_text2 op] is [{] ([OBrace2]), [$] / [\(] / [\[] / [$$] ([OMath2 k], all four
+    kinds) or [\begin bws {name} args] ([OBegin2 bws name args]: ANY environment of the context
+    — fallback included — with a standard signature, WITH its arguments [args]: written or absent
+    optional arguments, star, delimited, single-token arguments; math-mode bodies included).  It
+    is inserted at an ITEM BOUNDARY of a body of extended items: after the items [l1] (and
+    optional whitespace [fws]), in front of the items [l2].  As everywhere in the extended
+    grammar the side conditions are evaluated against the FOLLOW STRING:
+    [open_side2 cx hs l1 fws op fol] ([hs] the state of the body, [fol] everything that is
+    written after the delimiter) = the items [l1] are well formed in front of
+    [fws ++ open_text2 op ++ fol], [fws] is whitespace without a paragraph break, and
+      - [OMath2 k]: the body is not in math mode; [$] is not directly followed by [$];
+      - [OBegin2 bws name args]: [bws] is whitespace, the name is one the tokenizer accepts,
+        environments are enabled in [hs], the context resolves the name to a standard
+        signature and [args] are well formed for it in front of [fol];
+    the items [l2] are well formed in the state [open_state2 cx hs op] of the NEW construct's
+    body (= [hs] for [{] and for an environment whose body is not in math mode; math mode for
+    the math delimiters and the math environments), in front of what follows them.
+
+    NOT covered (differential testing only): insertion points inside an item (between the
+    tokens of a call, inside whitespace), in a delimited macro argument or below a braced one
+    (the path notion of [Proofs/Fault2Path.v] goes through groups, formulas and environment
+    bodies only; a braced argument as the INNERMOST construct: last section of this file),
+    in a [$ $] / [$$ $$] formula (its closing delimiter is not a stray closing token: it
+    opens a nested formula), a math delimiter inserted in math mode, environments with a legacy
+    (verbatim) signature; the hypotheses are on the FAULTED text (items well formed in front of
+    the inserted delimiter), not on the original document. *)
+From PLV Require Import Proofs.Fault2Open.
+
+(** ** at an item boundary of the TOP-LEVEL body: the new construct swallows the rest
+    [l2 ++ dtr] of the document and is not closed when the input ends — the general-nodes
+    parser's error 6 ("stop condition not met": closing delimiter not found), located right
+    after the inserted delimiter (for an environment: after its arguments), the reader at
+    the end of the input.  (The extended counterpart of [C05_fault_opening_partial].) *)
+Theorem C05_fault_opening2_partial : forall cx l1 fws op l2 dtr,
+  let ps0 := walker_state cx in
+  open_side2 cx ps0 l1 fws op (unparse_items2 l2 ++ dtr) = true ->
+  ok_items2 cx (open_state2 cx ps0 op) [] l2 dtr = true -> ws_ok dtr = true ->
+  let s := unparse_items2 l1 ++ fws ++ open_text2 op ++ unparse_items2 l2 ++ dtr in
+  let q := (length (unparse_items2 l1) + length fws + length (open_text2 op))%nat in
+  exists e, parse_top s false cx ps0 = PErr e (length s) /\ pe_pos e = Some q /\ pe_what e = 6%nat.
+Proof. exact fault_opening2_top. Qed.
+
+(** ** at an item boundary of a NESTED body, the body of the construct [f] — the innermost
+    frame of the left context [path ++ [f]]: a group, a [\( \)] / [\[ \]] formula or an
+    environment body, reached through groups, formulas (all four kinds) and environment
+    bodies —, whose closing delimiter is [c] ([closer2 f = Some c]: [}], [\)], [\]],
+    [\end{name}]; none for [$ $] / [$$ $$]).  The new construct reads on to [c]; when [c] is
+    not also ITS closing delimiter ([open_closes2 op c = false]: not [{] in a group, not
+    [\begin{name}] in the body of [\begin{name}]) its collector rejects [c]: the error of the
+    raise site of that token ([stray_what]: 2 / 4 / 3) located AT the closing delimiter of [f],
+    after the rest [l2] of the body and the whitespace [tr] in front of it; whatever follows
+    ([g], in a well-formed document: the rest of the document).  (The extended counterpart of
+    [C05_fault_opening_nested_partial].) *)
+Theorem C05_fault_opening2_nested_partial : forall cx path f l1 fws op l2 tr c g,
+  let ps0 := walker_state cx in
+  let hs := lp_state2 cx ps0 (path ++ [f]) in
+  let F := unparse_items2 l2 ++ tr ++ stray_text c ++ g in
+  closer2 f = Some c ->
+  ok_lpath2 cx ps0 (path ++ [f]) (unparse_items2 l1 ++ fws ++ open_text2 op ++ F) = true ->
+  open_side2 cx hs l1 fws op F = true ->
+  ok_items2 cx (open_state2 cx hs op) [] l2 (tr ++ stray_text c ++ g) = true -> ws_ok tr = true ->
+  open_closes2 op c = false ->
+  let q := (length (lp_text2 (path ++ [f])) + length (unparse_items2 l1) + length fws + length (open_text2 op)
+            + length (unparse_items2 l2) + length tr)%nat in
+  exists e,
+    parse_top (lp_text2 (path ++ [f]) ++ unparse_items2 l1 ++ fws ++ open_text2 op ++ F) false cx ps0
+    = PErr e (q + length (stray_text c))%nat
+    /\ pe_pos e = Some q /\ pe_what e = stray_what c.
+Proof. exact fault_opening2_in_frame. Qed.
+
+(** the general form: any left context (the empty one included), well-formed items, the
+    opening delimiter, well-formed items, ANY stray closing token [c] that the new construct
+    does not accept, then ANYTHING.  (The extended counterpart of
+    [C05_fault_opening_any_suffix_partial].) *)
+Theorem C05_fault_opening2_any_suffix_partial : forall cx path l1 fws op l2 tr c g,
+  let ps0 := walker_state cx in
+  let hs := lp_state2 cx ps0 path in
+  let F := unparse_items2 l2 ++ tr ++ stray_text c ++ g in
+  ok_lpath2 cx ps0 path (unparse_items2 l1 ++ fws ++ open_text2 op ++ F) = true ->
+  open_side2 cx hs l1 fws op F = true ->
+  ok_items2 cx (open_state2 cx hs op) [] l2 (tr ++ stray_text c ++ g) = true -> ws_ok tr = true ->
+  stray_wf c -> open_closes2 op c = false ->
+  let q := (length (lp_text2 path) + length (unparse_items2 l1) + length fws + length (open_text2 op)
+            + length (unparse_items2 l2) + length tr)%nat in
+  exists e,
+    parse_top (lp_text2 path ++ unparse_items2 l1 ++ fws ++ open_text2 op ++ F) false cx ps0
+    = PErr e (q + length (stray_text c))%nat
+    /\ pe_pos e = Some q /\ pe_what e = stray_what c.
+Proof. exact fault_opening2_nested. Qed.
+
+(** ** the input ends inside nested constructs: left context [path ++ [f]] (none of its
+    constructs is closed), well-formed items [l2], whitespace, end of input.  The INNERMOST
+    construct [f] is the one reported: error 6 located right after its opening, the reader at
+    the end of the input.  With [path = []] and [f = open_frame2 l1 fws op] this is
+    [C05_fault_opening2_partial]; it also covers an opening brace inserted in a group that
+    stands at top level (the extended counterpart of
+    [C05_fault_opening_brace_in_groups_partial]): the group's closing brace closes the new
+    group, the group itself — the frame [f] — is left unclosed, and the faulted text is
+    [lf_text2 f] followed by well-formed items. *)
+Theorem C05_fault_unclosed2_partial : forall cx path f l2 dtr,
+  let ps0 := walker_state cx in
+  let hs := lp_state2 cx ps0 path in
+  ok_lpath2 cx ps0 path (lf_text2 f ++ unparse_items2 l2 ++ dtr) = true ->
+  ok_lframe2 cx hs f (unparse_items2 l2 ++ dtr) = true ->
+  ok_items2 cx (lf_state2 cx hs f) [] l2 dtr = true -> ws_ok dtr = true ->
+  let s := lp_text2 path ++ lf_text2 f ++ unparse_items2 l2 ++ dtr in
+  exists e, parse_top s false cx ps0 = PErr e (length s)
+            /\ pe_pos e = Some (length (lp_text2 path) + length (lf_text2 f))%nat /\ pe_what e = 6%nat.
+Proof. exact fault_unclosed2. Qed.
+
+(** non-vacuity.  The extended document of [C05_fault_closing2_nonvacuous],
+    [a \begin{center}b\section*[x]{y}\end{center} \sqrt{z} ]; each of nine opening delimiters
+    — [{], [\(], [\[], [$], [$$], [\begin{zq}] (fallback signature), [\begin {tabular}{c}] (a
+    mandatory argument), [\begin{array}{c}] (an absent optional and a mandatory argument),
+    [\begin{equation}] (math-mode body) — inserted between the environment and [ \sqrt{z} ]
+    (offset 44): error 6 located right after it, raised at the end of the input *)
+Definition c05_openers2 : list opener2 :=
+  [OBrace2; OMath2 MParen; OMath2 MBracket; OMath2 MDollar; OMath2 MDollars;
+   OBegin2 [] [122;113] [];
+   OBegin2 [32] [116;97;98;117;108;97;114] [Grp2 [] [Text2 [] [99]] []];
+   OBegin2 [] [97;114;114;97;121] [Abs2; Grp2 [] [Text2 [] [99]] []];
+   OBegin2 [] [101;113;117;97;116;105;111;110] []].
+
+Example C05_fault_opening2_nonvacuous :
+  let cx := default_ctx in let ps0 := walker_state cx in
+  ok_doc2 cx {| d_items2 := c05_doc2_l1 ++ c05_doc2_l2; d_trail2 := [32] |} = true /\
+  length (unparse_items2 c05_doc2_l1) = 44%nat /\
+  map (fun op => length (open_text2 op)) c05_openers2 = [1; 2; 2; 1; 2; 10; 19; 16; 16]%nat /\
+  forallb (fun op =>
+    let s := unparse_items2 c05_doc2_l1 ++ [] ++ open_text2 op ++ unparse_items2 c05_doc2_l2 ++ [32] in
+    open_side2 cx ps0 c05_doc2_l1 [] op (unparse_items2 c05_doc2_l2 ++ [32]) &&
+    ok_items2 cx (open_state2 cx ps0 op) [] c05_doc2_l2 [32] &&
+    match parse_top s false cx ps0 with
+    | PErr e p => Nat.eqb p (length s)
+                  && match pe_pos e with Some q => Nat.eqb q (44 + length (open_text2 op))%nat | None => false end
+                  && Nat.eqb (pe_what e) 6%nat
+    | _ => false
+    end) c05_openers2 = true.
+Proof. vm_compute. repeat split. Qed.
+
+(** nested.  Left context [\sqrt[3]{z} \begin{center}b{c \(] (32 characters: an environment, a
+    group, a formula), items [x], the delimiter, [ y], then the closing delimiter of the
+    innermost construct and the rest of the document.
+    In the formula: [{] and the four environments run into [\)] (error 4 located there);
+    in the group (first two frames): the math delimiters and the environments run into [}]
+    (error 2); in the environment body (first frame): all nine run into [\end{center}]
+    (error 3).  [{] in the group is NOT covered ([open_closes2 = true]: the group's brace
+    closes the new group; see [C05_fault_unclosed2_nonvacuous]) *)
+Example C05_fault_opening2_nested_nonvacuous :
+  let cx := default_ctx in let ps0 := walker_state cx in
+  let l1 := [Text2 [] [120]] in let l2 := [Text2 [32] [121]] in
+  let chk (path : list lframe2) (c : stray) (g : str) (ops : list opener2) :=
+    forallb (fun op =>
+      let F := unparse_items2 l2 ++ [] ++ stray_text c ++ g in
+      let q := (length (lp_text2 path) + 1 + 0 + length (open_text2 op) + 2 + 0)%nat in
+      match closer2 (last path (LGrp2 [] [])) with
+      | Some c' => match c, c' with
+                   | SBrace, SBrace => true
+                   | SMClose MParen, SMClose MParen => true
+                   | SEnd x, SEnd x' => str_eqb x x'
+                   | _, _ => false
+                   end
+      | None => false
+      end &&
+      ok_lpath2 cx ps0 path (unparse_items2 l1 ++ [] ++ open_text2 op ++ F) &&
+      open_side2 cx (lp_state2 cx ps0 path) l1 [] op F &&
+      ok_items2 cx (open_state2 cx (lp_state2 cx ps0 path) op) [] l2 ([] ++ stray_text c ++ g) &&
+      negb (open_closes2 op c) &&
+      match parse_top (lp_text2 path ++ unparse_items2 l1 ++ [] ++ open_text2 op ++ F) false cx ps0 with
+      | PErr e p => Nat.eqb p (q + length (stray_text c))%nat
+                    && match pe_pos e with Some q' => Nat.eqb q' q | None => false end
+                    && Nat.eqb (pe_what e) (stray_what c)
+      | _ => false
+      end) ops in
+  length (lp_text2 c05_path2) = 32%nat /\
+  chk c05_path2 (SMClose MParen) [125;92;101;110;100;123;99;101;110;116;101;114;125]
+      (OBrace2 :: skipn 5 c05_openers2) = true /\
+  chk (firstn 2 c05_path2) SBrace [92;101;110;100;123;99;101;110;116;101;114;125] (skipn 1 c05_openers2) = true /\
+  open_closes2 OBrace2 SBrace = true /\
+  chk (firstn 1 c05_path2) (SEnd [99;101;110;116;101;114]) [32;119] c05_openers2 = true.
+Proof. vm_compute. repeat split. Qed.
+
+(** the any-suffix form at TOP LEVEL (empty left context): [a] + [{] + [ b] + a stray [\]] +
+    garbage [{$] *)
+Example C05_fault_opening2_any_suffix_nonvacuous :
+  let cx := default_ctx in let ps0 := walker_state cx in
+  let l1 := [Text2 [] [97]] in let l2 := [Text2 [32] [98]] in
+  let c := SMClose MBracket in let g := [123;36] in
+  let F := unparse_items2 l2 ++ [] ++ stray_text c ++ g in
+  ok_lpath2 cx ps0 [] (unparse_items2 l1 ++ [] ++ open_text2 OBrace2 ++ F) = true /\
+  open_side2 cx ps0 l1 [] OBrace2 F = true /\
+  ok_items2 cx (open_state2 cx ps0 OBrace2) [] l2 ([] ++ stray_text c ++ g) = true /\
+  open_closes2 OBrace2 c = false /\
+  exists e, parse_top (lp_text2 [] ++ unparse_items2 l1 ++ [] ++ open_text2 OBrace2 ++ F) false cx ps0 = PErr e 6
+            /\ pe_pos e = Some 4%nat /\ pe_what e = 4%nat.
+Proof. vm_compute. repeat split. eexists. repeat split. Qed.
+
+(** [a {b {c d} e} f] with [{] inserted between [c] and [ d] reads [a {] + [b {c{ d} e} f]: the
+    outer group (opened at offset 2) is never closed — error 6 located at offset 3, raised at
+    the end of the input (16); and [\begin{center}x{y $] + [z]: three unclosed constructs,
+    the formula (the innermost one) is reported *)
+Example C05_fault_unclosed2_nonvacuous :
+  let cx := default_ctx in let ps0 := walker_state cx in
+  let f := LGrp2 [Text2 [] [97]] [32] in
+  let l2 := [Text2 [] [98]; Grp2 [32] [Text2 [] [99]; Grp2 [] [Text2 [32] [100]] []; Text2 [32] [101]] [];
+             Text2 [32] [102]] in
+  lf_text2 f ++ unparse_items2 l2 = [97;32;123;98;32;123;99;123;32;100;125;32;101;125;32;102] /\
+  ok_lframe2 cx ps0 f (unparse_items2 l2 ++ []) = true /\
+  ok_items2 cx (lf_state2 cx ps0 f) [] l2 [] = true /\
+  (exists e, parse_top (lp_text2 [] ++ lf_text2 f ++ unparse_items2 l2 ++ []) false cx ps0 = PErr e 16
+             /\ pe_pos e = Some 3%nat /\ pe_what e = 6%nat) /\
+  (let path := [LEnv2 [] [] [] [99;101;110;116;101;114] []; LGrp2 [Text2 [] [120]] []] in
+   let f' := LMath2 [Text2 [] [121]] [32] MDollar in
+   let m2 := [Text2 [] [122]] in
+   ok_lpath2 cx ps0 path (lf_text2 f' ++ unparse_items2 m2 ++ []) = true /\
+   ok_lframe2 cx (lp_state2 cx ps0 path) f' (unparse_items2 m2 ++ []) = true /\
+   ok_items2 cx (lf_state2 cx (lp_state2 cx ps0 path) f') [] m2 [] = true /\
+   exists e, parse_top (lp_text2 path ++ lf_text2 f' ++ unparse_items2 m2 ++ []) false cx ps0 = PErr e 20
+             /\ pe_pos e = Some 19%nat /\ pe_what e = 6%nat).
+Proof.
+  vm_compute. split; [reflexivity|]. split; [reflexivity|]. split; [reflexivity|].
+  split; [eexists; repeat split|]. split; [reflexivity|]. split; [reflexivity|]. split; [reflexivity|].
+  eexists; repeat split.
+Qed.
+
+(** an opening brace inserted in a group that stands in a [\( \)] formula (the extended
+    counterpart of [C05_fault_opening_brace_in_groups_math_partial]) is an instance of
+    [C05_fault_opening2_nested_partial] by re-reading the faulted text: [\(a {b {c d} e} f\)] with
+    [{] inserted between [c] and [ d] reads [\(] + [a] + the unmatched [ {] + [b {c{ d} e} f] + [\)]:
+    rejected at [\)] (offset 18) *)
+Example C05_fault_opening2_brace_in_groups_nonvacuous :
+  let cx := default_ctx in let ps0 := walker_state cx in
+  let f := LMath2 [] [] MParen in
+  let l1 := [Text2 [] [97]] in
+  let l2 := [Text2 [] [98]; Grp2 [32] [Text2 [] [99]; Grp2 [] [Text2 [32] [100]] []; Text2 [32] [101]] [];
+             Text2 [32] [102]] in
+  let c := SMClose MParen in
+  let F := unparse_items2 l2 ++ [] ++ stray_text c ++ [] in
+  lp_text2 ([] ++ [f]) ++ unparse_items2 l1 ++ [32] ++ open_text2 OBrace2 ++ F
+  = [92;40;97;32;123;98;32;123;99;123;32;100;125;32;101;125;32;102;92;41] /\
+  closer2 f = Some c /\
+  ok_lpath2 cx ps0 ([] ++ [f]) (unparse_items2 l1 ++ [32] ++ open_text2 OBrace2 ++ F) = true /\
+  open_side2 cx (lp_state2 cx ps0 ([] ++ [f])) l1 [32] OBrace2 F = true /\
+  ok_items2 cx (open_state2 cx (lp_state2 cx ps0 ([] ++ [f])) OBrace2) [] l2 ([] ++ stray_text c ++ []) = true /\
+  open_closes2 OBrace2 c = false /\
+  exists e, parse_top (lp_text2 ([] ++ [f]) ++ unparse_items2 l1 ++ [32] ++ open_text2 OBrace2 ++ F) false cx ps0
+            = PErr e 20 /\ pe_pos e = Some 18%nat /\ pe_what e = 4%nat.
+Proof.
+  vm_compute. split; [reflexivity|]. split; [reflexivity|]. split; [reflexivity|]. split; [reflexivity|].
+  split; [reflexivity|]. split; [reflexivity|]. eexists; repeat split.
+Qed.
+
+Print Assumptions C05_fault_opening2_partial.
+Print Assumptions C05_fault_opening2_nested_partial.
+Print Assumptions C05_fault_opening2_any_suffix_partial.
+Print Assumptions C05_fault_unclosed2_partial.
+
+(** * Faults in the body of a BRACED MANDATORY ARGUMENT of a macro call over the extended
+    grammar (proofs in [Proofs/Fault2OpenArg.v])
+
+    The call is written in a body reached through groups, formulas and environment bodies
+    ([path]); [bh_text before ws name post args1 aws 123] = the items [before] the call,
+    [ws \name post], the arguments [args1] in front of the braced one, whitespace [aws], the
+    opening brace; [ok_machole] = its side conditions (the slot that follows [args1] in the
+    macro's signature is a mandatory argument ([AKExpr]), whitespace in front of the brace only
+    where the slot allows it, the arguments [args1] well formed, ... evaluated against the
+    follow string), [bh_state] the state the argument is parsed in.  PARTIAL: the macro
+    argument is the INNERMOST construct (no path continues below it, except through the one
+    inserted delimiter), no comments between the arguments and the brace. *)
+From PLV Require Import Proofs.Fault2OpenArg.
+
+(** a stray [\)], [\]] or [\end{x}] ([c <> SBrace]: a [}] closes the argument) at an item
+    boundary of the argument's body: rejected where it stands, whatever follows *)
+Theorem C05_fault_closing2_macro_arg_partial : forall cx path before ws name post args1 aws l1 fws c g,
+  let ps0 := walker_state cx in
+  let hs := lp_state2 cx ps0 path in
+  let bt := bh_text before ws name post args1 aws 123%N in
+  let F := unparse_items2 l1 ++ fws ++ stray_text c ++ g in
+  ok_lpath2 cx ps0 path (bt ++ F) = true ->
+  ok_machole cx hs before ws name post args1 aws F = true ->
+  ok_items2 cx (bh_state cx hs name (length args1)) [] l1 (fws ++ stray_text c ++ g) = true ->
+  ws_ok fws = true -> stray_wf c -> c <> SBrace ->
+  let q := (length (lp_text2 path) + length bt + length (unparse_items2 l1) + length fws)%nat in
+  exists e,
+    parse_top (lp_text2 path ++ bt ++ F) false cx ps0
+    = PErr e (q + length (stray_text c))%nat
+    /\ pe_pos e = Some q /\ pe_what e = stray_what c.
+Proof. exact fault_closing2_marg. Qed.
+
+(** an unmatched opening delimiter at an item boundary of the argument's body: the new
+    construct reads on to a closing token [c] that is not its own — in a well-formed document
+    the closing brace of the argument ([c = SBrace], any delimiter but [{]) — and rejects it
+    there, whatever follows *)
+Theorem C05_fault_opening2_macro_arg_partial : forall cx path before ws name post args1 aws l1 fws op l2 tr c g,
+  let ps0 := walker_state cx in
+  let hs := lp_state2 cx ps0 path in
+  let aps := bh_state cx hs name (length args1) in
+  let bt := bh_text before ws name post args1 aws 123%N in
+  let F := unparse_items2 l2 ++ tr ++ stray_text c ++ g in
+  let FF := unparse_items2 l1 ++ fws ++ open_text2 op ++ F in
+  ok_lpath2 cx ps0 path (bt ++ FF) = true ->
+  ok_machole cx hs before ws name post args1 aws FF = true ->
+  open_side2 cx aps l1 fws op F = true ->
+  ok_items2 cx (open_state2 cx aps op) [] l2 (tr ++ stray_text c ++ g) = true -> ws_ok tr = true ->
+  stray_wf c -> open_closes2 op c = false ->
+  let q := (length (lp_text2 path) + length bt + length (unparse_items2 l1) + length fws + length (open_text2 op)
+            + length (unparse_items2 l2) + length tr)%nat in
+  exists e,
+    parse_top (lp_text2 path ++ bt ++ FF) false cx ps0
+    = PErr e (q + length (stray_text c))%nat
+    /\ pe_pos e = Some q /\ pe_what e = stray_what c.
+Proof. exact fault_opening2_marg. Qed.
+
+(** non-vacuity: [a \begin{center}b \section*[x]{] (31 characters: the mandatory argument of
+    [\section], after its star and its optional argument, in an environment) + [y] + a stray
+    [\)] / [\]] / [\end{zq}] + [ z}\end{center}]: rejected at offset 32; and + [y] + one of
+    the eight opening delimiters other than [{] + [ z] + the argument's [}] + [\end{center}]:
+    "unexpected closing brace" located at that brace *)
+Example C05_fault2_macro_arg_nonvacuous :
+  let cx := default_ctx in let ps0 := walker_state cx in
+  let path := [LEnv2 [Text2 [] [97]] [32] [] [99;101;110;116;101;114] []] in
+  let sec := [115;101;99;116;105;111;110] in
+  let args1 := [Text2 [] [42]; Brk2 [] 91 93 [Text2 [] [120]] []] in
+  let bt := bh_text [Text2 [] [98]] [32] sec [] args1 [] 123 in
+  let hs := lp_state2 cx ps0 path in
+  let aps := bh_state cx hs sec 2 in
+  let l1 := [Text2 [] [121]] in let l2 := [Text2 [32] [122]] in
+  length (lp_text2 path ++ bt) = 31%nat /\
+  forallb (fun c =>
+    let g := [32;122;125;92;101;110;100;123;99;101;110;116;101;114;125] in
+    let F := unparse_items2 l1 ++ [] ++ stray_text c ++ g in
+    ok_lpath2 cx ps0 path (bt ++ F) && ok_machole cx hs [Text2 [] [98]] [32] sec [] args1 [] F &&
+    ok_items2 cx aps [] l1 ([] ++ stray_text c ++ g) &&
+    match parse_top (lp_text2 path ++ bt ++ F) false cx ps0 with
+    | PErr e p => Nat.eqb p (32 + length (stray_text c))%nat
+                  && match pe_pos e with Some q => Nat.eqb q 32%nat | None => false end
+                  && Nat.eqb (pe_what e) (stray_what c)
+    | _ => false
+    end) [SMClose MParen; SMClose MBracket; SEnd [122;113]] = true /\
+  forallb (fun op =>
+    let c := SBrace in
+    let g := [92;101;110;100;123;99;101;110;116;101;114;125] in
+    let F := unparse_items2 l2 ++ [] ++ stray_text c ++ g in
+    let FF := unparse_items2 l1 ++ [] ++ open_text2 op ++ F in
+    let q := (31 + 1 + length (open_text2 op) + 2)%nat in
+    ok_lpath2 cx ps0 path (bt ++ FF) && ok_machole cx hs [Text2 [] [98]] [32] sec [] args1 [] FF &&
+    open_side2 cx aps l1 [] op F && ok_items2 cx (open_state2 cx aps op) [] l2 ([] ++ stray_text c ++ g) &&
+    negb (open_closes2 op c) &&
+    match parse_top (lp_text2 path ++ bt ++ FF) false cx ps0 with
+    | PErr e p => Nat.eqb p (q + 1)%nat
+                  && match pe_pos e with Some q' => Nat.eqb q' q | None => false end
+                  && Nat.eqb (pe_what e) 2%nat
+    | _ => false
+    end) (skipn 1 c05_openers2) = true.
+Proof. vm_compute. repeat split. Qed.
+
+Print Assumptions C05_fault_closing2_macro_arg_partial.
+Print Assumptions C05_fault_opening2_macro_arg_partial.
